@@ -5,3 +5,7 @@ add("C01", "runtime oracle comparison (sympy-derived CR3BP field/Jacobian/energy
 add("C04", "runtime oracle comparison on live libration-point objects (mpmath roots and Taylor coefficients, sympy Jacobian spectrum, symplecticity/diagonalisation invariants) over generated mass ratios",
     "held on the observed systems: every catalogue pair, an edge set around mu_Routh/0.5/2e-9 and log-uniform mu in [2e-9,0.5]; all five points, gamma, c_2..c_12, modes and the normal-form matrix checked against independent references",
     "trusts mpmath/sympy/numpy; mode tolerance 1e-6 relative (position error amplified by 1/gamma); above mu_Routh a raised error for L4/L5 modes is accepted")
+add("C15", "reference-model monitor: per-segment sign-change model on the same samples + exact analytic crossings (brentq); convergence-rate monitor under grid refinement",
+    "held on the observed detection calls: thousands of sampled curves (random normals, planted exact zeros, flat runs, zero-length segments, first/last-sample zeros), "
+    "all directions, refinement 0..10, dedup on/off, max-hits; accuracy and refinement ratios on analytic curves for linear and cubic interpolation",
+    "where the statement is silent (tangencies, on-surface samples with a direction filter, last sample) either outcome is accepted; convergence judged by geometric-mean error ratios in a conclusive window")
